@@ -13,7 +13,11 @@ package handshake
 //     connection IDs it was issued with;
 //   * ValidateRemoteAddr(b) is true iff b is the address the token was issued for (UDP: same
 //     IP, any port; other addresses: same string); where the same IP is merely written in
-//     another byte form the statement is silent and both answers are accepted;
+//     another byte form (4 bytes vs its IPv4-mapped 16 bytes) the statement is silent and
+//     both answers are accepted. The address set (c14util.Addrs) contains, besides unrelated
+//     addresses, addresses in different encodings that SHARE BYTES: every ordered pair
+//     (issued for, presented from) is evaluated, e.g. 1.2.3.4 in 4 bytes against the IPv6
+//     addresses carrying 01 02 03 04 at every byte position (NAT64, 6to4, ISATAP, ...);
 //   * every mutated token (bit flip, truncation, extension, ... , re-sealed under another
 //     key, spliced from two valid tokens) decodes to an error or to "no token", never to a
 //     token.
@@ -219,7 +223,20 @@ func c14RunTokCase(t *testing.T, c c14TokCase, idx int, outcomes *explore.Outcom
 func c14TokCases(thorough bool) []c14TokCase {
 	var cs []c14TokCase
 	nAddr := len(c14util.Addrs())
+	nCID := len(c14util.CIDPairs())
 	for a := 0; a < nAddr; a++ {
+		if a >= c14util.NBase {
+			// the addresses that share bytes with others in another encoding: the token is
+			// presented unmodified from every address (no mutations: the AEAD does not look at
+			// the address); one Retry connection-ID pair per address (all pairs in the thorough tier)
+			cs = append(cs, c14TokCase{retry: false, addr: a, lvl: c14util.AddrOnly})
+			for cid := 0; cid < nCID; cid++ {
+				if thorough || cid == a%nCID {
+					cs = append(cs, c14TokCase{retry: true, addr: a, cid: cid, lvl: c14util.AddrOnly})
+				}
+			}
+			continue
+		}
 		lvl := c14util.Core
 		if thorough || a == 0 || a == 5 || a == 10 {
 			lvl = c14util.Extended
@@ -250,13 +267,17 @@ func c14TokPart(t *testing.T) explore.Part {
 		rep.Outcomes = outcomes.List()
 		rep.OutcomesN = int64(len(rep.Outcomes))
 		rep.States = rep.OutcomesN
-		rep.Rule = fmt.Sprintf("explicit case list: %d tokens = {NEW_TOKEN, Retry x %d connection-ID pairs (lengths 0,1,8,20)} x %d issue addresses, each minted by the real TokenGenerator at a harness-chosen virtual instant; per token: decode (twice, 1 h apart), ValidateRemoteAddr against all %d addresses, every single-bit flip, every truncation (front and back), every one-byte extension (256 values, front and back)%s, re-sealing under 4 other keys (both directions), splices of two valid tokens; evaluations = calls into the real TokenGenerator",
-			len(cases), len(c14util.CIDPairs()), len(c14util.Addrs()), len(c14util.Addrs()),
+		rep.Rule = fmt.Sprintf("explicit case list: %d tokens = {NEW_TOKEN, Retry x connection-ID pairs (%d pairs, lengths 0,1,8,20)} x %d issue addresses (the first %d with all pairs and all mutations; the other %d - the 16-byte IPv6 addresses that carry the bytes of the IPv4 reference address at every position 0..12, NAT64 / 6to4 / ISATAP / IPv4-compatible forms, near misses of the IPv4-mapped prefix, the IPv4-mapped form of another IPv4 address - unmodified only, %s), each minted by the real TokenGenerator at a harness-chosen virtual instant; per token: decode (twice, 1 h apart), ValidateRemoteAddr against all %d addresses (every ordered pair issued-for x presented-from), re-sealing under 4 other keys (both directions), splices of two valid tokens; per token of the first %d addresses also every single-bit flip, every truncation (front and back), every one-byte extension (256 values, front and back)%s; evaluations = calls into the real TokenGenerator",
+			len(cases), len(c14util.CIDPairs()), len(c14util.Addrs()), c14util.NBase, len(c14util.Addrs())-c14util.NBase,
+			map[bool]string{true: "all connection-ID pairs", false: "one connection-ID pair each"}[e.Thorough()],
+			len(c14util.Addrs()), c14util.NBase,
 			map[bool]string{true: ", every one-byte deletion / insertion / substitution (255 values per byte), 25 two-byte extensions", false: " (for the three reference addresses also every one-byte deletion / insertion / substitution)"}[e.Thorough()])
 		rep.Bound = fmt.Sprintf("all %d cases, all mutations of each", len(cases))
 		rep.Samples = []any{
 			fmt.Sprintf("Retry token for %s with ODCID %x / RSCID %x: 1 bit flipped in the tag -> cipher: message authentication failed", c14util.Addrs()[0].Name, c14util.CIDPairs()[0].ODCID, c14util.CIDPairs()[0].RSCID),
 			fmt.Sprintf("NEW_TOKEN token for %s presented from %s -> ValidateRemoteAddr false", c14util.Addrs()[0].Name, c14util.Addrs()[4].Name),
+			fmt.Sprintf("Retry token for %s presented from %s -> ValidateRemoteAddr false", c14util.Addrs()[0].Name, c14util.Addrs()[c14util.NBase].Name),
+			fmt.Sprintf("NEW_TOKEN token for %s presented from %s -> ValidateRemoteAddr false", c14util.Addrs()[c14util.NBase].Name, c14util.Addrs()[0].Name),
 		}
 		return rep, nil
 	}
